@@ -12,6 +12,7 @@ class _hashable(tuple):
     >>> assert _prehash([1,2]) != _prehash((1,2)) and _prehash((1,2)) == (1,2)
     >>> assert _prehash(dict(a = 1)) != _prehash((('a', 1),)) 
     >>> assert _prehash(dict(a = 1, b = [2])) == _prehash(dict(b = [2], a = 1))
+    >>> assert _prehash({1,2}) == frozenset([1,2])
     """
     def __eq__(self, other):
         return type(other) is _hashable and tuple.__eq__(self, other)
@@ -32,6 +33,8 @@ def _prehash(value):
         except TypeError:
             pass
         return _hashable([dict] + items)
+    elif isinstance(value, (set, frozenset)):
+        return frozenset(value)
     else:
         return value
 
